@@ -267,6 +267,32 @@ def check(prog, run):
             else:
                 run.violation("open-bookkeeping", c, "open() must open self._file_name with mode %r, keep the handle and record the node's inode; calls %s"
                               % (mode, [(x["name"], x["args"]) for x in calls]), file, op.node.lineno, op.qualname)
+    # the constructor as documented -- SCSIDevice(device, readwrite, detect_replugged, buffering) -- by position and by keyword:
+    # "detection disabled" must mean that, however the caller says it
+    for label, a_, k_, want in (("SCSIDevice(dev, False, False)", ["/dev/sg0", False, False], {}, (False, False, -1)),
+                                ("SCSIDevice(dev, True, False, 0)", ["/dev/sg0", True, False, 0], {}, (True, False, 0)),
+                                ("SCSIDevice(dev, detect_replugged=False)", ["/dev/sg0"], {"detect_replugged": False}, (False, False, -1)),
+                                ("SCSIDevice(dev)", ["/dev/sg0"], {}, (False, True, -1)),
+                                ("SCSIDevice(dev, True)", ["/dev/sg0", True], {}, (True, True, -1))):
+        si = StandIn(prog).install()
+        try:
+            ps = I.explore(lambda a_=a_, k_=k_: I.instantiate(dcls, list(a_), dict(k_), None, _F()), max_paths=8)
+        finally:
+            si.remove()
+        for p in ps:
+            if not p.returned:
+                run.violation("constructor-arguments", label, "raises %s" % p.raised.describe(), file, dcls.node.lineno, dcls.qualname)
+                continue
+            d = p.value
+            got = (d.attrs.get("_read_write"), d.attrs.get("_detect_replugged"), d.attrs.get("_buffering"))
+            opens = [e for e in p.events if e["kind"] == "external-call" and e["name"] == "open"]
+            mode = opens[0]["args"][1] if opens and len(opens[0]["args"]) > 1 else None
+            if got == want and mode == ("w+b" if want[0] else "rb"):
+                run.ok("constructor-arguments", label)
+            else:
+                run.violation("constructor-arguments", label,
+                              "gives read_write=%r, detect_replugged=%r, buffering=%r (opened with mode %r); the documented signature "
+                              "(device, readwrite, detect_replugged, buffering) means %r" % (got + (mode, want)), file, dcls.node.lineno, dcls.qualname)
     # close / __exit__ : released exactly once, on every path, exceptions not suppressed
     def release_paths(cls_mod, cls_name, fname, mk, args, expect_call):
         f = prog.func(cls_mod, cls_name, fname)
